@@ -341,6 +341,10 @@ def run(ctx):
     from .c05_semantics import check_cascade_semantics
 
     check_cascade_semantics(ctx, "R9", casc, pred, list({g.qualname: g for g in helpers}.values()))
+    ctx.rule("R10", "a basis correction rescales every primitive of a shell it touches (evaluated)", "only the first primitive of a contracted d/f/g shell is corrected: the intended correction fails its check and another one is applied under a wrong diagnosis")
+    from .c05_semantics import check_helper_uniformity
+
+    check_helper_uniformity(ctx, "R10", list({g.qualname: g for g in helpers}.values()))
 
 
 def check_norm_expression(ctx, pred):
